@@ -411,7 +411,19 @@ class ndarray:
         return ndarray(self.o.view(), self.d, self.n)
 
     def tolist(self):
+        """Python scalars: integer / bool elements become plain ints / bools (forking over the
+        feasible values of symbolic ones, except symbolic dictionary keys)."""
         f = self.fixed()
+        if f.d.kind in "iub" and f.o.size:
+            def conc(v):
+                if isinstance(v, SKey):
+                    return v
+                if isinstance(v, SInt):
+                    return E().concretize(v.t)
+                if isinstance(v, SBool):
+                    return bool(v)
+                return v
+            return _f(conc, 1, 1)(f.o).tolist()
         return f.o.tolist()
 
     def item(self, *a):
@@ -582,18 +594,26 @@ class ndarray:
     def __ror__(self, o): return self._bin(o, "or", True)
 
     def __iadd__(self, o):
+        if self.n is not None:      # symbolic-length arrays are always fresh results, never views
+            return binop(self, o, "add", out_dtype=self.d)
         self[...] = binop(self, o, "add", out_dtype=self.d)
         return self
 
     def __isub__(self, o):
+        if self.n is not None:      # symbolic-length arrays are always fresh results, never views
+            return binop(self, o, "sub", out_dtype=self.d)
         self[...] = binop(self, o, "sub", out_dtype=self.d)
         return self
 
     def __imul__(self, o):
+        if self.n is not None:      # symbolic-length arrays are always fresh results, never views
+            return binop(self, o, "mul", out_dtype=self.d)
         self[...] = binop(self, o, "mul", out_dtype=self.d)
         return self
 
     def __itruediv__(self, o):
+        if self.n is not None:      # symbolic-length arrays are always fresh results, never views
+            return binop(self, o, "div", out_dtype=self.d)
         self[...] = binop(self, o, "div", out_dtype=self.d)
         return self
 
@@ -663,6 +683,7 @@ class ndarray:
 
     def sort(self, axis=-1, kind=None):
         from .snp_funcs import sort
+        self._need_fixed()
         r = sort(self, axis=axis)
         self.o[...] = r.o
 
